@@ -153,6 +153,11 @@ func genC15(g *Gen) {
 			g.bin2([]string{"Min", "Max"}[g.r.Intn(2)], x, y)
 			g.quant([]string{"Round", "Ceil", "Floor"}[g.r.Intn(3)], x, g.r.Intn(21)-10, m)
 		case 6:
+			if g.r.Intn(4) == 0 {
+				g.emit(Ev{"op": "Misc", "f": []string{"E", "Pi", "Phi", "NaN"}[g.r.Intn(4)]})
+				g.emit(Ev{"op": "Misc", "f": "Inf", "sgn": g.r.Intn(3) - 1})
+				g.emit(Ev{"op": "Misc", "f": "ModeString", "m": []int{0, 1, 2, 3, 4, 5, 6, 17, 255}[g.r.Intn(9)]})
+			}
 			for _, op := range []string{"IsNaN", "IsZero", "Signbit"} {
 				g.un(op, x)
 			}
